@@ -749,3 +749,18 @@ fn handle_version(head: bool) -> Response {
     }
 }
 
+
+//------------ Verification hook ---------------------------------------------
+
+/// Renders the body of `/api/v1/status` without a running server.
+#[cfg(routinator_verif)]
+pub async fn verif_api_status_body(
+    history: &SharedHistory,
+    http: &HttpServerMetrics,
+    rtr: &RtrServerMetrics,
+) -> bytes::Bytes {
+    use http_body_util::BodyExt;
+    handle_api_status(false, history, http, rtr).await
+        .into_hyper().unwrap().into_body()
+        .collect().await.unwrap().to_bytes()
+}
